@@ -430,7 +430,44 @@ def _directed(ctx):
         expect(f"link-constant:{type(v).__name__}", conv, (s,), D(1, 2, v, DI(10, 20)))
 
 
-DIRECTED = {"linking-rules": _directed}
+def _recipe_of_this_request(ctx):
+    """The converter for (S, D) is fixed by the recipe of THIS request: plain first and with a recipe afterwards, the reverse, and two different
+    recipes one after the other - through get_converter, convert, a user retort and the module-level functions, on pairs used before."""
+    from adaptix.conversion import ConversionRetort, convert  # noqa: PLC0415
+
+    @dataclass
+    class S:
+        a: int
+        b: int
+
+    @dataclass
+    class D:
+        a: int
+        b: int
+    swap = [link("a", "b"), link("b", "a")]
+    const = [link_constant(P[D].b, value=-1)]
+    plans = {"plain": ([], D(1, 2)), "swap": (swap, D(2, 1)), "const": (const, D(1, -1))}
+    retort = ConversionRetort()
+    apis = {
+        "get_converter": lambda recipe: get_converter(S, D, recipe=recipe)(S(1, 2)),
+        "convert": lambda recipe: convert(S(1, 2), D, recipe=recipe),
+        "retort.get_converter": lambda recipe: retort.get_converter(S, D, recipe=recipe)(S(1, 2)),
+        "retort.convert": lambda recipe: retort.convert(S(1, 2), D, recipe=recipe),
+    }
+    for order in (("plain", "swap", "plain", "const", "swap"), ("swap", "plain", "const", "const", "plain"), ("const", "swap", "plain")):
+        for api, call in apis.items():
+            for step, name in enumerate(order):
+                recipe, want = plans[name]
+                out = attempt(call, recipe)
+                ctx.evaluated(("recipe-of-this-request", api, order, step))
+                ctx.count("directed_cases")
+                if out.kind != "ok" or not strict_eq(out.value, want):
+                    ctx.violation("wrong-field-value:recipe-of-an-earlier-request-used", f"{api}: request #{step} of {order} ({name}) gave {out!r:.150}, the linking rules of its own recipe fix {want!r}",
+                                  {"api": api, "order": list(order), "step": step})
+                    break
+
+
+DIRECTED = {"linking-rules": _directed, "recipe-of-this-request": _recipe_of_this_request}
 from ..suite_leg import make as _suite_leg  # noqa: E402
 
 DIRECTED["suite-under-monitors"] = _suite_leg("C13")
